@@ -138,6 +138,13 @@ def check(ctx):
     rep.add('U4', fc.site(hc[0]), 'that matrix goes unchanged into the clustering', [u(a) for a in hc[0].args] == [u(pst.targets[0])], expected=f'hclust({u(pst.targets[0])})', found=u(hc[0]), stmt='hclust operand')
     rep.add('U4', fc.site(lt[0]), 'the linkage goes unchanged into the tree builder together with the labels', u(lt[0].args[0]) == u(hst.targets[0]), expected=f'linkage_to_bio_tree({u(hst.targets[0])}, labels)', found=u(lt[0]), stmt='tree operand')
     rep.add('U4', fc.site(wr[0]), 'the tree is printed as Newick on standard output', [u(a) for a in wr[0].args] == [u(tst.targets[0]), 'sys.stdout', "'newick'"], expected="Phylo.write(tree, sys.stdout, 'newick')", found=u(wr[0]), stmt='newick')
+    # "twice the height at which UPGMA clustering of the genomes' pairwise distance matrix merges them": the matrix handed to the
+    # clustering must be the true pairwise matrix - cell provenance and pairwise layout of C05, re-evaluated
+    from . import c05
+    rep.rule('B1', 'C05-B1 re-evaluated: every matrix cell is the unmodified kernel value, a copy of a cell, or the zero diagonal')
+    rep.rule('B6', 'C05-B6 re-evaluated: pairwise row/column selection, mirror copy, zero diagonal')
+    c05.check_stores(ctx)
+    c05.check_pairwise(ctx)
     labels = u(lt[0].args[1])
     # per branch: labels and sigs defined from one source
     ldefs = [s for s in stmts_in(cn.body) if isinstance(s, ast.Assign) and labels in [u(e) for t in s.targets for e in (t.elts if isinstance(t, ast.Tuple) else [t])]]
@@ -178,6 +185,8 @@ VARIANTS = [
     V('children swapped into one clade twice', 'B', _C, "clades.append(Clade(clades=[left, right]))", "clades.append(Clade(clades=[left, left]))", 'U2'),
     V('leaves in reversed label order', 'B', _C, "clades = [Clade(name=name) for name in labels]", "clades = [Clade(name=name) for name in reversed(labels)]", 'U2'),
     V('optimal ordering / other option', 'B', _C, "return linkage(sm, method='average')", "return linkage(sm, method='average', metric='cityblock')", 'U1'),
+    V('empty row signature fills its row with 1 (seeded C17b)', 'B', 'src/gambit/metric.py', "\t\t\tjaccarddist_array(row_sig, col_sigs, out=row_out)",
+      "\t\t\tif len(row_sig) == 0:\n\t\t\t\trow_out[:] = 1\n\t\t\telse:\n\t\t\t\tjaccarddist_array(row_sig, col_sigs, out=row_out)", 'B'),
     V('E: leaf test written >=', 'E', _C, "(0 if left_i < nleaves else link[left_i - nleaves, 2])", "(link[left_i - nleaves, 2] if left_i >= nleaves else 0)"),
     V('E: positional method argument', 'E', _C, "return linkage(sm, method='average')", "return linkage(sm, 'average')"),
 ]
